@@ -51,6 +51,8 @@ def classify(crate, an, f, c):
                 continue
             if fname in INSENSITIVE_SINKS:
                 return "insensitive", "consumed by `%s`" % fname
+            if fname in ("min_by_key", "max_by_key") and _total_key(par["args"][1:], allow_first=True):
+                return "sorted", "extreme element by a key that contains the (unique) first component of the element"
             if fname == "collect" or fname == "from_iter" or fname == "extend":
                 ty = crate.types[crate.strip_refs(par["t"])]
                 tgt = ty.get("adt")
@@ -119,6 +121,30 @@ def _sorted_later(a, f, var):
                 if wild or not all(b[0] in used for b in bound):
                     return False
             return True
+    return False
+
+
+def _total_key(args, allow_first=False):
+    """Does the key closure use every binding of its parameter (no ties left to the iteration order)?  With `allow_first`, a
+    tuple pattern may ignore components as long as its FIRST component (by convention the map key, which is unique) is used."""
+    clo = [x for x in args if x.get("k") == "Closure"]
+    if not clo or not clo[0].get("body"):
+        return False
+    params = [p for p in clo[0]["body"].get("params", []) if "pat" in p]
+    bound = [b for p in params for b in thir.pat_bindings(p["pat"])]
+    wild = any(_has_wild(p["pat"]) for p in params)
+    used = {x["var"] for x in thir.walk(clo[0]["body"]["body"]) if x.get("k") == "Var"}
+    if not wild and bound and all(b[0] in used for b in bound):
+        return True
+    if allow_first and params:
+        pat = params[-1]["pat"]
+        while pat.get("k") in ("Deref", "Bind") and "sub" in pat and pat["sub"] is not None and pat.get("k") != "Bind":
+            pat = pat["sub"]
+        subs = pat.get("subs") or []
+        if subs:
+            first = subs[0]["p"] if isinstance(subs[0], dict) and "p" in subs[0] else subs[0]
+            fb = list(thir.pat_bindings(first))
+            return bool(fb) and all(b[0] in used for b in fb)
     return False
 
 
